@@ -15,19 +15,19 @@ def main(tier, seed):
     items += fam_tt.template_family(seed, tier)
     items += fam_tt.exit_templates()
     from hv import fam_seq, fam_ops
-    items += fam_seq.bool_structure(seed, tier)[::5 if quick else 2]      # every branch lowering re-checks its inverse condition
+    items += fam_seq.bool_structure(seed, tier)[::5 if quick else 4]      # every branch lowering re-checks its inverse condition
     items += [it for it in fam_ops.ops_family(seed, tier, [2]) if it.meta['family'].startswith(('op:cmp_int', 'op:log_', 'op:not'))][::4 if quick else 1]
-    items += fam_tt.random_tt(seed + 3, 30 if quick else 500)
+    items += fam_tt.random_tt(seed + 3, 30 if quick else 300)
     core = fam_tt.core_family(seed + 1, tier)
     import random
     random.Random(seed).shuffle(core)
-    items += core[:200 if quick else 4000]
+    items += core[:200 if quick else 2500]
     items += families.generated(seed + 3, 25 if quick else 400, feat={'faults': 0.2}, inputs=2, family='gen3')
-    items += families.generated(seed + 5, 40 if quick else 800, feat={'tt': 0.8, 'faults': 0.1}, inputs=2, family='gentt3')
+    items += families.generated(seed + 5, 40 if quick else 500, feat={'tt': 0.8, 'faults': 0.1}, inputs=2, family='gentt3')
     items += families.examples(s=120, names={'hello', 'max', 'factor', 'optional_max', 'ouroboros', 'sat', 'mergesort'})
     # unchecked twins of a slice
     unch = []
-    for it in items[::6 if quick else 4]:
+    for it in items[::6 if quick else 5]:
         unch.append(families.runner.Item(it.key + ('unchecked',), it.src, it.args, w=it.w, s=it.s, unchecked=True,
                                          meta=dict(it.meta, family=it.meta['family'] + ':unchecked')))
     items += unch
